@@ -211,3 +211,39 @@ def c01_typed(ctx, dim, form):
     ctx.ensure("to(VoxelCenter)", eq(np.asarray(ctr.to(darsia.VoxelCenter, cs)), V + 0.5))
     ctx.ensure("result classes", isinstance(vox.to_coordinate(cs), kinds[2]) and isinstance(crd.to_voxel(cs), kinds[0])
                and isinstance(crd.to_voxel_center(cs), kinds[1]) and isinstance(ctr.to_voxel(cs), kinds[0]))
+
+
+@ob("C01.history", cases=product_cases(dim=(1, 2, 3), change=("origin-attr", "update_metadata", "reset_origin", "dimensions")), mods=MODS, funcs=FUNCS + ["darsia.image.image:Image.coordinatesystem", "darsia.image.image:Image.reset_origin", "darsia.image.image:Image.update_metadata"],
+    cite="For every image ... voxel index zero maps to the image origin, the opposite corner is displaced from it by exactly the physical dimensions (whatever was asked of the image before)",
+    note="the coordinate system handed out by an image is a function of its CURRENT metadata: accessed, metadata changed in place, accessed again")
+def c01_history(ctx, dim, change):
+    img, n, d, o = build_image(ctx, dim, "scalar", True)
+    cs_old = img.coordinatesystem                      # earlier use
+    img.opposite_corner
+    o2 = ctx.reals("p", dim, sample=(-1000.0, 1000.0))
+    d2 = ctx.reals("e", dim, pos=True, sample=(0.01, 50.0))
+    dims = list(d)
+    if change == "origin-attr":
+        img.origin = darsia.Coordinate(np.array(list(o2)))
+        org = list(o2)
+    elif change == "update_metadata":
+        img.update_metadata({"origin": darsia.Coordinate(np.array(list(o2)))})
+        org = list(o2)
+    elif change == "reset_origin":
+        img.reset_origin()
+        org = expected_origin(dim, d, None)
+    else:
+        img.update_metadata(dimensions=list(d2))
+        dims, org = list(d2), list(o)
+    cs = img.coordinatesystem
+    ctx.ensure("coordinate(0) == the image's current origin", and_(eq(list(cs.coordinate([0] * dim)), org), eq(list(img.origin), org)))
+    want = list(org)
+    for m, (ax, sg) in enumerate(SPEC[dim]):
+        want[ax] = org[ax] + sg * dims[m]
+    ctx.ensure("opposite corner - origin == current signed dimensions", eq(list(img.opposite_corner), want))
+    v = ctx.ints("v", dim, sample=(-3, 8))
+    ctx.ensure("coordinate(v) == spec for the current metadata", eq(list(cs.coordinate(list(v))), spec_coordinate(dim, n, dims, org, v)))
+    th = ctx.reals("th", dim, sample=(0.0, 1.0))
+    for t in th:
+        ctx.assume(and_(t > 0, t < 1))
+    ctx.ensure("voxel(coordinate(v + theta)) == v for the current metadata", eq(list(cs.voxel(cs.coordinate(np.array([v[m] + th[m] for m in range(dim)])))), list(v)))
